@@ -28,6 +28,9 @@ type HintDB struct {
 	files map[string]map[string][][]string // file -> obligation name -> alternative hash sets
 	dirty map[string]bool
 	put   map[string]bool
+	// all assertion lines seen per hint file (recorded) / loaded
+	allSets   map[string]map[string]bool
+	allLoaded map[string]map[string]bool
 }
 
 func hintDir() string {
@@ -92,6 +95,14 @@ func (h *HintDB) Save() error {
 		return err
 	}
 	for f := range h.dirty {
+		if set := h.allSets[f]; set != nil {
+			var xs []string
+			for x := range set {
+				xs = append(xs, x)
+			}
+			sort.Strings(xs)
+			h.files[f][allKey] = [][]string{xs}
+		}
 		b, _ := json.Marshal(h.files[f])
 		// one obligation per line keeps diffs readable
 		s := strings.ReplaceAll(string(b), `]],"`, "]],\n\"")
@@ -273,4 +284,94 @@ func shrinkCore(tmpdir, name, query string, baseS float64, solvers []string) ([]
 	}
 	sort.Strings(hs)
 	return hs, true
+}
+
+// ---- tolerant use of hints after an edit -------------------------------------------------------------------------
+// With the hints, the set of ALL assertion lines ever seen in the queries of a function is recorded (key "__all__").
+// When a hint no longer applies exactly because the code or a contract changed, the obligation is first tried on the
+// hinted hypotheses that are still present plus every hypothesis that is new (not in the recorded set): an edit
+// usually changes a few lines, and those are exactly the new ones. As before this is a subset of the full query's
+// hypotheses, so `unsat` is a valid discharge, and anything else falls back to the full query.
+
+const allKey = "__all__"
+
+func (h *HintDB) AddAll(oblName string, query string) {
+	h.mu.Lock()
+	defer h.mu.Unlock()
+	f := hintFileOf(oblName)
+	m := h.load(f)
+	if h.allSets == nil {
+		h.allSets = map[string]map[string]bool{}
+	}
+	set := h.allSets[f]
+	if set == nil {
+		set = map[string]bool{}
+		if ls := m[allKey]; len(ls) == 1 {
+			for _, x := range ls[0] {
+				set[x] = true
+			}
+		}
+		h.allSets[f] = set
+	}
+	for _, l := range strings.Split(query, "\n") {
+		if isAssertLine(l) {
+			set[lineHash(l)] = true
+		}
+	}
+	_ = m
+	h.dirty[f] = true
+}
+
+func (h *HintDB) allOf(oblName string) map[string]bool {
+	h.mu.Lock()
+	defer h.mu.Unlock()
+	f := hintFileOf(oblName)
+	if h.allLoaded == nil {
+		h.allLoaded = map[string]map[string]bool{}
+	}
+	if s, ok := h.allLoaded[f]; ok {
+		return s
+	}
+	m := h.load(f)
+	var set map[string]bool
+	if ls := m[allKey]; len(ls) == 1 {
+		set = map[string]bool{}
+		for _, x := range ls[0] {
+			set[x] = true
+		}
+	}
+	h.allLoaded[f] = set
+	return set
+}
+
+// sliceTolerant keeps the hinted hypotheses that are present and every hypothesis not in the recorded set.
+func sliceTolerant(query string, hashes []string, all map[string]bool) (string, bool) {
+	if all == nil {
+		return "", false
+	}
+	want := map[string]bool{}
+	for _, x := range hashes {
+		want[x] = true
+	}
+	var b strings.Builder
+	kept, fresh := 0, 0
+	for _, l := range strings.Split(query, "\n") {
+		if isAssertLine(l) {
+			hsh := lineHash(l)
+			switch {
+			case want[hsh]:
+				kept++
+			case !all[hsh]:
+				fresh++
+			default:
+				continue
+			}
+		}
+		b.WriteString(l)
+		b.WriteString("\n")
+	}
+	if kept == 0 || fresh > 400 {
+		return "", false
+	}
+	return b.String(), true
 }
